@@ -37,7 +37,7 @@ def main():
     meta = json.load(open(os.path.join(d, "meta.json")))
     manifest = json.load(open(os.path.join(VERIF, "MANIFEST.json")))
     allp = [c["property_id"] for c in manifest["checks"]]
-    props = allp if a.all else (a.props.split(",") if a.props else [meta["property"]])
+    props = allp if (a.all or "property" not in meta) else (a.props.split(",") if a.props else [meta["property"]])
     patch = os.path.join(d, "patch.diff")
     st = sh(["git", "-C", REPO, "status", "--porcelain"]).stdout.strip()
     if st:
@@ -55,7 +55,7 @@ def main():
                 print(pid, res["exit"], res["lines"][:2], res["tail"][-1][:200], flush=True)
         # keep the first replay of the seeded property's own check
         for pid, res in results.items():
-            if pid != meta["property"]:
+            if pid != meta.get("property"):
                 continue
             for l in res["lines"]:
                 if l.startswith("VIOLATION") and "replay=" in l:
